@@ -13,5 +13,5 @@ passed=$(grep -E "^test result: " "$log" | awk '{p+=$4; f+=$6} END {print p"/"f}
 git checkout -q -- .; git clean -fdq -- crates std 2>/dev/null
 (cd "$out/demo" && bash ./run.sh) >>"$log" 2>&1; without=$?
 git apply "$out/patch.diff"
-echo "$id: suite_exit=$t passed/failed=$passed demo_with_change_exit=$with demo_without_change_exit=$without"
+echo "$id: suite_exit=$t passed/failed=$passed demo_with=$with demo_without=$without" > $wt/verdict.txt; echo "$id: suite_exit=$t passed/failed=$passed demo_with_change_exit=$with demo_without_change_exit=$without"
 if [ $t -eq 0 ] && [ $with -ne 0 ] && [ $without -eq 0 ]; then echo "$id: CONFIRMED"; else echo "$id: NOT CONFIRMED"; fi
